@@ -32,6 +32,7 @@ def build(num, sub, ver, pad, tail):
     return ((num << 4) | pad).to_bytes(2, "big") + tail[:1021]
 
 
+@core.guard
 def judge(case):
     from pyrtcm import RTCMMessage, RTCMReader, exceptions  # pylint: disable=import-outside-toplevel
     from pyrtcm import (  # pylint: disable=import-outside-toplevel
